@@ -58,12 +58,19 @@ CLAIMED = {
     technique='contract-based verification: finite-class decision procedure for single-character replace chains (homomorphism) + bounded native contract execution'),
   'C14': dict(
     category='other',
-    text='Scheduler step lemma (UpdateStateForIterativeAction: counter, re-queue position, frame) and the edge-recording '
-         'postcondition of TranslateTableAttachedToFile are proved from the current source for all states; the '
-         'whole-run statements are a contract on Concertina.Run checked on every well-formed plan up to 4/5 actions '
-         'with every placement of one or two iteration groups and every stop-signal time.',
-    design_ref='DESIGN.md section 4, C14',
-    note='engine.Run assumed not to touch scheduler state; display code dropped; plan well-formedness is a precondition; whole-run part is bounded.',
+    text='Proved from the current source of common/concertina_lib.py, for all plans and all runs (144 obligations): '
+         'SortActions returns every action at most once with each prerequisite an iteration mate or earlier in the list; '
+         'the scheduler part of __init__ establishes the queue invariant; Run keeps it at every step; RunOneAction runs '
+         'exactly the head through the engine, only when its prerequisites are complete or iteration mates, completes a '
+         'plain action once, increments / completes / re-queues an iterated one behind its iteration mates '
+         '(UpdateStateForIterativeAction); a complete action never runs again. Also the edge-recording postcondition of '
+         'TranslateTableAttachedToFile. Declared order and repetition counts of iterations, termination and the stop signal '
+         'over whole runs are a bounded contract on Concertina.Run over every well-formed plan up to 4/5 actions.',
+    design_ref='DESIGN.md section 9.8 and section 4, C14',
+    note='assumed: engine.Run does not touch scheduler state; display code dropped; the tables built by UnderstandIterations '
+         '(preconditions of SortActions / __init__ slice, incl. plan well-formedness for later members of an iteration); '
+         'sorted(), list-comprehension filter and set operations by their stated contracts; ghost position map introduced by '
+         'definition; termination of Run not proved.',
     technique='contract-based deductive verification (Python-AST VCs, z3/cvc5) + exhaustive small-plan contract execution (bounded)'),
   'C17': dict(
     category='other',
